@@ -10,7 +10,7 @@ from . import _cls
 from .. import vcrun
 
 G9 = ["pregex.core.classes." + c + ".__init__" for c in ("AnyBetween", "AnyButBetween", "AnyFrom", "AnyButFrom")] + \
-     ["pregex.core.classes.__Class.__chars_to_ranges"]      # the part of __process that merges characters into ranges
+     ["pregex.core.classes.__Class." + f for f in ("__chars_to_ranges", "__process", "__init__")]     # verbose text lists what the given text lists
 
 LEVEL = "exploration"
 
@@ -23,6 +23,14 @@ def run(rep, tier):
     # G9 (VCs, all arguments): the documented exceptions iff their conditions (single character / token, start < end by code
     # point, at least one character) and the exact bracket text handed to __Class.__init__ (every special character escaped)
     vcrun.run_functions(rep, G9, tier)
+    # the precondition of __process / __Class.__init__ on the SHAPE of the bracket text (only \\ ^ [ ] - / are escaped): G9's
+    # post-conditions give it for the parametrised constructors; for the named classes it is read off every instance here
+    from ..common import native
+    cs = native("run_module", {"module": "pvc.bex_contract", "func": "classarg_shapes"})
+    rep.ob(f"every named class ({cs['classes']} instances) hands __Class.__init__ a bracket text of the presupposed shape",
+           "discharged" if not cs["bad"] else "failed", "cpython-exhaustive", 0, kind="finite")
+    for b in cs["bad"]:
+        rep.violation(f"class text of {b['class']} has an escape __process misreads", b, {"kind": "expr", "expr": b["class"] + "()"}, witness=b["class"] + "()")
     rep.assumptions.append("G9 pins the bracket text given to __Class.__init__; what __process / re make of that text is the "
                            "bounded part (B2) and the complete part over named classes (F)")
     rep.trusted += ["R7 bracket expressions", "specs/charsets.py (documented sets / Unicode blocks)"]
